@@ -61,6 +61,7 @@ type Enc struct {
 	dynResults map[string]Val // result of the (last) call through a function-typed parameter
 	entryLets  map[string]Val
 	ghostObjs  int
+	unproved   []string
 	inQuant    int
 	invDepth   int
 	usedTypeInvs map[string]bool
@@ -155,6 +156,16 @@ func (e *Enc) oblige(kind, site string, pos token.Pos, goal string, props []stri
 		name = fmt.Sprintf("%s~%d", name, e.siteCtr[key])
 	}
 	o := &Obligation{Name: name, Kind: kind, Func: fname, Props: props, Pos: e.posOf(pos), At: len(e.lines), Reach: e.curReach, Goal: goal, Clause: clause}
+	if e.fc != nil {
+		for _, u := range e.fc.Unproved {
+			if strings.Contains(name, u[0]) {
+				// out of reach: assumed, listed, never counted
+				e.unproved = append(e.unproved, fmt.Sprintf("%s [%s]: %s", name, strings.Join(props, ","), u[1]))
+				e.assume(goal)
+				return nil
+			}
+		}
+	}
 	e.obls = append(e.obls, o)
 	// assume-after-assert
 	e.assume(goal)
